@@ -88,7 +88,20 @@ func cmdGen(args []string) {
 	fmt.Printf("generated %d behaviours\n", *n)
 }
 
-var genFns = map[string]func(*gen) M{"C02": (*gen).behC02}
+var genFns = map[string]func(*gen) M{"C02": (*gen).behC02, "C10tls": (*gen).behC10tls}
+
+// behC10tls: the size-limit sessions inside a TLS session.
+func (g *gen) behC10tls() M {
+	b := g.behC10()
+	cfg := run.AsM(b["cfg"])
+	steps := b["steps"].([]any)
+	for _, sv := range steps {
+		delete(run.AsM(sv), "nowait")
+	}
+	cfg["tls"] = "cert"
+	b["steps"] = append([]any{send(M{"t": "SSLRequest", "stuffed": false}), M{"k": "tls"}}, steps...)
+	return b
+}
 
 // behC02: client-chosen bytes that the server quotes back in its messages:
 // unknown message types (every interesting byte value, at idle, in a batch and
